@@ -57,8 +57,32 @@ def ast_for(cls):
         elif k == 'CXXConstructorDecl' and acc == 'public' and not c.get('isImplicit'):
             ps = [p for p in c.get('inner', []) if p.get('kind') == 'ParmVarDecl']
             ctors.append({'params': [p['type']['qualType'] for p in ps], 'ndefault': sum(1 for p in ps if p.get('init') or any(x.get('kind', '').endswith('Expr') or x.get('kind', '').endswith('Literal') for x in p.get('inner', [])))})
-    abstract = any(m.get('pure') for m in out.get('inner', []) if isinstance(m, dict))
-    return cls, {'bases': bases, 'methods': methods, 'ctors': ctors, 'abstract': bool(out.get('definitionData', {}).get('isAbstract'))}
+    # nested public structs (typed option values): public data members and whether they can be default-constructed
+    nested = []
+    acc = 'private'
+    for c in out.get('inner', []):
+        k = c.get('kind')
+        if k == 'AccessSpecDecl':
+            acc = c['access']
+        elif k == 'CXXRecordDecl' and acc == 'public' and c.get('completeDefinition') and c.get('name') and not c.get('isImplicit'):
+            facc = 'public' if c.get('tagUsed') == 'struct' else 'private'
+            fields, nctors, dflt_ok = [], 0, False
+            for m in c.get('inner', []):
+                mk = m.get('kind')
+                if mk == 'AccessSpecDecl':
+                    facc = m['access']
+                elif mk == 'FieldDecl' and facc == 'public' and m.get('name') and not m.get('isBitfield'):
+                    fields.append(m['name'])
+                elif mk == 'CXXConstructorDecl' and not m.get('isImplicit'):
+                    ps = [q for q in m.get('inner', []) if q.get('kind') == 'ParmVarDecl']
+                    nd = sum(1 for q in ps if q.get('init') or any(x.get('kind', '').endswith('Expr') or x.get('kind', '').endswith('Literal') for x in q.get('inner', [])))
+                    nctors += 1
+                    if facc == 'public' and len(ps) - nd <= 0:
+                        dflt_ok = True
+            packed = any(m.get('kind') == 'PackedAttr' for m in c.get('inner', []))
+            if fields and (dflt_ok or nctors == 0) and not packed:
+                nested.append({'name': c['name'], 'fields': fields})
+    return cls, {'bases': bases, 'methods': methods, 'ctors': ctors, 'abstract': bool(out.get('definitionData', {}).get('isAbstract')), 'nested': nested}
 
 
 def collect():
@@ -138,6 +162,7 @@ template <class T> typename std::enable_if<!(std::is_integral<T>::value || std::
 template <class O, class P> std::string to_str(const PDUOption<O, P>& o) {
     return "(" + std::to_string(opt_id(o.option())) + "," + std::to_string((unsigned long long)o.length_field()) + "," + hx(o.data_ptr(), o.data_size()) + ")";
 }
+//@STRUCT_FWD@
 template <class T> std::string to_str(const std::vector<T>& v);
 template <class T> std::string to_str(const std::list<T>& v);
 template <class A, class B> std::string to_str(const std::pair<A, B>& p);
@@ -166,10 +191,27 @@ template <size_t n> struct conv<small_uint<n>, void> { static const int kind = 3
 template <> struct conv<IPv4Address, void> { static const int kind = 4; static const int bits = 32; static IPv4Address from(uint64_t v) { return IPv4Address(Endian::host_to_be((uint32_t)v)); } };
 template <> struct conv<IPv6Address, void> { static const int kind = 5; static const int bits = 128; static IPv6Address from(uint64_t v) { uint8_t b[16]; for (int i = 0; i < 16; ++i) b[i] = (uint8_t)((v >> (8 * (i % 8))) + i); return IPv6Address(b); } };
 template <size_t n> struct conv<HWAddress<n>, void> { static const int kind = 6; static const int bits = 8 * n; static HWAddress<n> from(uint64_t v) { uint8_t b[n]; for (size_t i = 0; i < n; ++i) b[i] = (uint8_t)(v >> (8 * ((n - 1 - i) % 8))); return HWAddress<n>(b); } };
+// structured values (typed options): everything is derived from the one 64-bit script value
+inline uint64_t mix(uint64_t v, uint64_t i) { uint64_t z = v + 0x9e3779b97f4a7c15ULL * (i + 1); z = (z ^ (z >> 30)) * 0xbf58476d1ce4e5b9ULL; z = (z ^ (z >> 27)) * 0x94d049bb133111ebULL; return z ^ (z >> 31); }
+template <> struct conv<std::vector<uint8_t>, void> { static const int kind = 8; static const int bits = 64; static std::vector<uint8_t> from(uint64_t v) { std::vector<uint8_t> b(v % 23); for (size_t i = 0; i < b.size(); ++i) b[i] = (uint8_t)mix(v, i); return b; } };
+template <> struct conv<std::string, void> { static const int kind = 8; static const int bits = 64; static std::string from(uint64_t v) { std::string b(v % 17, 'a'); for (size_t i = 0; i < b.size(); ++i) b[i] = (char)('a' + mix(v, i) % 26); return b; } };
+template <class T> struct elem_from { static T get(uint64_t v) { return conv<T>::kind == 2 ? conv<T>::from(v % 4) : conv<T>::from(v); } };
+template <size_t n> struct elem_from<small_uint<n> > { static small_uint<n> get(uint64_t v) { return conv<small_uint<n> >::from(v & ((1ULL << n) - 1)); } };
+template <class T> struct conv<std::vector<T>, void> { static const int kind = conv<T>::kind > 0 ? 9 : 0; static const int bits = 64; static std::vector<T> from(uint64_t v) { std::vector<T> r; for (size_t i = 0; i < v % 4; ++i) r.push_back(elem_from<T>::get(mix(v, i))); return r; } };
+template <class T> struct conv<std::list<T>, void> { static const int kind = conv<T>::kind > 0 ? 9 : 0; static const int bits = 64; static std::list<T> from(uint64_t v) { std::list<T> r; for (size_t i = 0; i < v % 4; ++i) r.push_back(elem_from<T>::get(mix(v, i))); return r; } };
+template <class A, class B> struct conv<std::pair<A, B>, void> { static const int kind = (conv<A>::kind > 0 && conv<B>::kind > 0) ? 9 : 0; static const int bits = 64; static std::pair<A, B> from(uint64_t v) { return std::pair<A, B>(elem_from<A>::get(mix(v, 1)), elem_from<B>::get(mix(v, 2))); } };
+template <class T> void fill(T& f, uint64_t v) { if (conv<T>::kind > 0) f = elem_from<T>::get(v); }
+template <class T, size_t N> void fill(T (&f)[N], uint64_t v) { for (size_t i = 0; i < N; ++i) fill(f[i], mix(v, i)); }
+//@STRUCT_CONV@
 template <class O, class B, class A> bool call_setter(O& obj, void (B::*m)(A), uint64_t v) {
     B& b = obj;
     (b.*m)(conv<typename std::decay<A>::type>::from(v));
     return true;
+}
+template <class B, class A> std::string value_str(void (B::*)(A), uint64_t v) {
+    typedef typename std::decay<A>::type T;
+    if (conv<T>::kind == 0) return "?";
+    return to_str_any(conv<T>::from(v), 0);
 }
 template <class T, class E = void> struct bits_of { static const int value = 0; };
 template <class T> struct bits_of<T, typename std::enable_if<(conv<T>::kind > 0)>::type> { static const int value = conv<T>::bits; };
@@ -184,7 +226,15 @@ def generate(gen_dir=None):
     classes, res = collect()
     missing = [c for c in classes if res.get(c) is None]
     table = {}
-    L = [HEADER]
+    structs = []
+    for c in classes:
+        for n in (res.get(c) or {}).get('nested', []):
+            structs.append(('%s::%s' % (c, n['name']), n['fields']))
+    fwd = ''.join('std::string to_str(const %s& v);\n' % q for q, _ in structs)
+    cv = ''.join('template <> struct conv<%s, void> { static const int kind = 7; static const int bits = 64; static %s from(uint64_t v); };\n' % (q, q) for q, _ in structs)
+    cv += ''.join('inline %s conv<%s, void>::from(uint64_t v) { %s r; %s return r; }\n' % (q, q, q, ' '.join('fill(r.%s, mix(v, %d));' % (f, i + 1) for i, f in enumerate(fs))) for q, fs in structs)
+    defs = ''.join('inline std::string to_str(const %s& v) { std::string s = "{"; %s return s + "}"; }\n' % (q, ' '.join('s += "%s%s=" + to_str_any(v.%s, 0);' % (',' if i else '', f, f) for i, f in enumerate(fs))) for q, fs in structs)
+    L = [HEADER.replace('//@STRUCT_FWD@\n', fwd).replace('//@STRUCT_CONV@\n', cv), defs]
     # order: most derived first for dispatch
     def depth(c):
         d = 0
@@ -196,7 +246,8 @@ def generate(gen_dir=None):
     order = sorted([c for c in classes if res.get(c)], key=lambda c: -depth(c))
     for c in order:
         g, s = accessors_of(c, res)
-        table[c] = {'getters': sorted(g), 'setters': {k: s[k] for k in sorted(s) if k in g}, 'setters_without_getter': sorted(k for k in s if k not in g)}
+        table[c] = {'getters': sorted(g), 'setters': {k: s[k] for k in sorted(s) if k in g}, 'setters_without_getter': sorted(k for k in s if k not in g),
+                    'getter_types': {k: g[k] for k in sorted(g) if k in s}}
         L.append('inline void describe_%s(const %s& p, std::ostream& os) {' % (c, c))
         L.append('    os << "%s";' % c)
         for name in sorted(g):
@@ -225,6 +276,18 @@ def generate(gen_dir=None):
             L.append('        if (field == "%s") { call_setter(*p, &%s::%s, v); return 1; }' % (f, c, f))
         L.append('        return 0; }')
     L.append('    return 0;')
+    L.append('}')
+    L.append('// the printed form of the value set_field() would pass for v ("" when there is no such setter)')
+    L.append('inline std::string value_of(const std::string& cls, const std::string& field, uint64_t v) {')
+    for c in order:
+        t = table[c]
+        if not t['setters']:
+            continue
+        L.append('    if (cls == "%s") {' % c)
+        for f in t['setters']:
+            L.append('        if (field == "%s") return value_str(&%s::%s, v);' % (f, c, f))
+        L.append('        return ""; }')
+    L.append('    return "";')
     L.append('}')
     # construction
     from_buf, dflt = [], []
@@ -263,7 +326,7 @@ def generate(gen_dir=None):
     if not os.path.exists(path) or open(path).read() != text:
         open(path, 'w').write(text)
     json.dump({'classes': order, 'table': table, 'missing': missing, 'from_buffer': from_buf + ['Dot11::from_bytes'], 'default_constructible': dflt}, open(os.path.join(V, 'build', 'accessors.json'), 'w'), indent=1)
-    return {'ok': not missing, 'classes': len(order), 'getters': sum(len(t['getters']) for t in table.values()),
+    return {'ok': not missing, 'classes': len(order), 'structs': len(structs), 'getters': sum(len(t['getters']) for t in table.values()),
             'setter_pairs': sum(len(t['setters']) for t in table.values()), 'missing': missing}
 
 
